@@ -12,6 +12,10 @@ package main
 //                   scan's region; MultiGet: the listed keys that exist, its inner chunks being the
 //                   keys taken PlanBatchSize at a time; empty plans are skipped).  Rows are compared
 //                   exactly (canonical values, kinds included), errors by class.
+//   property (C03)  engine only, on the same runs: whenever the batch drain completes, the row drain
+//                   completes too and returns the same rows by content (list-typed select fields —
+//                   split / list / int_list / float_list, aliased or not, used in the filter through
+//                   `in` — included: the row projection used to refuse typed lists).
 //   property (C05)  engine only, on the same runs: cache on = cache off (by content), one column per
 //                   field.  The model also says whether the statement meets the hypotheses of the C05
 //                   theorems (`hyp=1`): a cache-on-vs-off difference on such a statement would contradict
@@ -273,6 +277,14 @@ var projFixed = []string{
 	"select (upper('2') + value) as f1, !(f1 < 'a'), substr(f1, 1, 2) where is_int(f1)",
 	"select key as f1, f1 as f2 where f2 != 'k2'",
 	"select key as f1, f1 as f2, f2 where f2 != 'k2' & f1 != 'a'",
+	// list-typed select fields (C03: whatever batch iteration returns, row iteration returns too)
+	"select key, split(value, ',') as l where true",
+	"select key, split(value, ',') where key != 'zz'",
+	"select key, list(1, 2) where true",
+	"select int_list(int(value), 7), float_list(1.5) as fl, key where key != 'b'",
+	"select split(value, ',') as s, key where 'a' in s | '1' in s",
+	"select list(int(value), 3) as l, int_list(1, 2) as il where 3 in l & 2 in il",
+	"select float_list(2.5, float(value)) as fl where 2.5 in fl & len(fl) > 1",
 }
 
 var projPool = []KV{{"a", "1"}, {"a1", "x"}, {"ab", "2"}, {"abc", "10"}, {"b", ""}, {"b-k1", "7"}, {"b1", "7"}, {"ba", "abc"}, {"k1", "3"}, {"k2", "v"}, {"k3", "-4"}, {"l", "2.5"}, {"m", "0"}, {"n", "a,b"}, {"o", "1,2,3"}, {"p", "+5"}, {"zz", "b-k1"}}
@@ -431,6 +443,53 @@ func projWideSafe(q string) bool {
 	return !strings.Contains(l, "upper(") && !strings.Contains(l, "lower(") && !strings.Contains(l, "split(")
 }
 
+// projListStatement: 1–3 select fields of which at least one is list-typed (split / list / int_list /
+// float_list over constants and over the pair), aliased or not; the filter uses a list alias through
+// `in` and `len`, or is independent of the fields
+func projListStatement(r *Rand) string {
+	type lf struct{ expr, elem string }
+	lists := []lf{
+		{"split(value, ',')", "str"}, {"split(key, 'k')", "str"}, {"split(value, '')", "str"}, {"split('a,b', ',')", "str"},
+		{"list(1, 2)", "int"}, {"list(int(value), 1)", "int"}, {"list(2.5, float(value))", "float"}, {"list(strlen(key))", "int"},
+		{"int_list(int(value), 7)", "int"}, {"int_list(1, 2, 3)", "int"}, {"int_list(strlen(value))", "int"},
+		{"float_list(1.5, float(value))", "float"}, {"float_list(1)", "float"}, {"float_list(int(value), 2.5)", "float"},
+	}
+	scalars := []string{"key", "value", "int(value)", "upper(key)", "strlen(value)", "is_int(value)", "key + value"}
+	n := 1 + r.Intn(3)
+	li := r.Intn(n) // this field is a list for sure
+	var fs, conds []string
+	for i := 0; i < n; i++ {
+		if i == li || r.Chance(1, 3) {
+			l := pick(r, lists)
+			if r.Chance(2, 3) {
+				name := fmt.Sprintf("l%d", i+1)
+				fs = append(fs, l.expr+" as "+name)
+				probe := map[string][]string{"str": {"'a'", "'1'", "key", "''"}, "int": {"1", "3", "int(value)", "7"}, "float": {"2.5", "1.5", "float(value)", "1"}}[l.elem]
+				switch r.Intn(4) {
+				case 0:
+					conds = append(conds, pick(r, probe)+" in "+name)
+				case 1:
+					conds = append(conds, "len("+name+") > "+fmt.Sprint(r.Intn(3)))
+				case 2:
+					conds = append(conds, "!("+pick(r, probe)+" in "+name+")")
+				}
+			} else {
+				fs = append(fs, l.expr)
+			}
+		} else {
+			e := pick(r, scalars)
+			if r.Bool() {
+				e += fmt.Sprintf(" as s%d", i+1)
+			}
+			fs = append(fs, e)
+		}
+	}
+	if len(conds) == 0 || r.Chance(1, 4) {
+		conds = append(conds, pick(r, []string{"true", "key != 'zz'", "key > 'a'", "is_int(value)", "value ~= '[0-9]'", "key ^= 'k' | key ^= 'a'"}))
+	}
+	return "select " + strings.Join(fs, ", ") + " where " + strings.Join(conds, pick(r, []string{" & ", " | "}))
+}
+
 // projStatement: the statement of case ix
 func projStatement(r *Rand, ix uint64) string {
 	if ix < uint64(4*len(projFixed)) {
@@ -450,10 +509,12 @@ func projStatement(r *Rand, ix uint64) string {
 		o = defaultOpts()
 		o.Json = false
 	}
-	switch r.Intn(3) {
+	switch r.Intn(4) {
 	case 0: // the generator of MODES (aliases in the filter, plain fields too)
 		g := NewGen(r, o)
 		return g.Select()
+	case 1: // list-typed select fields, aliased or not, used in the filter through `in` / len
+		return projListStatement(r)
 	default: // the generator of EVAL: every field aliased, aliases at any position, list-typed fields
 		g := NewXGen(r, o)
 		if r.Chance(1, 4) {
@@ -468,7 +529,7 @@ func runPROJECT(e *Env) (*Summary, error) {
 	start := time.Now()
 	n := e.n(6000, 120000)
 	bss := []int{1, 2, 3, 5, 32}
-	rule := fmt.Sprintf("(a thin slice also at the default batch size 32 on stores of 35–100 pairs, with caseless multi-byte keys and literals, and statements over accented / invalid-UTF-8 literals and integers beyond 2^53 whose rows are computed by the harness itself) %d statements (%d fixed ones aimed at the cache keys and the lookup by field name, each on 4 stores; the rest from the typed generators of MODES and EVAL: 1–3 fields, aliases referenced in the filter, in function arguments, in other fields, under !, in IN lists) over shuffled stores of 0–17 pairs in which some rows fail the filter between accepted ones; each drained through the real plan in row mode and in batch mode at batch sizes %v with the field cache on and off, against Kvql.Project on the plan's own ASTs; non-trivial when a row is returned and a pair is rejected; distinct by (statement, store, mode, bs, cache)", n, len(projFixed), bss)
+	rule := fmt.Sprintf("(a thin slice also at the default batch size 32 on stores of 35–100 pairs, with caseless multi-byte keys and literals, and statements over accented / invalid-UTF-8 literals and integers beyond 2^53 whose rows are computed by the harness itself) %d statements (%d fixed ones aimed at the cache keys and the lookup by field name, each on 4 stores; the rest from the typed generators of MODES and EVAL and a generator of list-typed select fields — split/list/int_list/float_list, aliased or not, used in the filter through `in` and len —: 1–3 fields, aliases referenced in the filter, in function arguments, in other fields, under !, in IN lists) over shuffled stores of 0–17 pairs in which some rows fail the filter between accepted ones; each drained through the real plan in row mode and in batch mode at batch sizes %v with the field cache on and off, against Kvql.Project on the plan's own ASTs, and row mode against batch mode (batch completes => row completes with the same rows); non-trivial when a row is returned and a pair is rejected; distinct by (statement, store, mode, bs, cache)", n, len(projFixed), bss)
 	col := NewCollector("PROJECT", e.Tier, e.Seed, rule)
 	saved := kvql.PlanBatchSize
 	defer func() { kvql.PlanBatchSize = saved }()
@@ -512,7 +573,15 @@ func runPROJECT(e *Env) (*Summary, error) {
 				hyp := "hyp=?"
 				for _, batch := range []bool{false, true} {
 					if !batch && phase != 0 && bs != 32 {
-						continue // row mode does not depend on the batch size (the stores of the bs=32 phase are its own)
+						// row mode does not depend on the batch size (the stores of the bs=32 phase are its own):
+						// no correspondence query, only the engine's rows for the row-vs-batch oracle below
+						for _, cache := range []bool{false, true} {
+							if pp := projBuild(q, kvs); pp.skip == "" {
+								_, content, class := projDrain(pp.plan, false, cache)
+								res["row"+map[bool]string{false: "0", true: "1"}[cache]] = run{content, class}
+							}
+						}
+						continue
 					}
 					mode := "row"
 					if batch {
@@ -578,6 +647,28 @@ func runPROJECT(e *Env) (*Summary, error) {
 						col.Hist("cache-visible:" + hyp)
 						col.Find(Finding{Kind: "property", Group: "PROJECT", Check: "cache-on-vs-off-" + mode, Case: fmt.Sprintf("%s bs=%d", cs, bs), Line: "MODES " + hxs(q),
 							Engine: "cache on: " + a, Model: "cache off: " + b, Seed: e.Seed, Index: ix, Properties: []string{"C05"}, Class: strings.TrimSpace(projDefectClass(q) + " " + hyp)})
+					}
+				}
+				// C03, engine only: whenever batch iteration completes, row iteration completes too, with the
+				// same rows (by content; these statements have no ORDER BY: same order)
+				for _, cbit := range []string{"0", "1"} {
+					b, okb := res["batch"+cbit]
+					rw, okr := res["row"+cbit]
+					if !okb || !okr || b.class != "ok" {
+						continue
+					}
+					col.Hist("c03:judged")
+					cls := ""
+					if rw.class == "result-type" {
+						cls = "typed-list-column"
+					}
+					if rw.class != "ok" {
+						col.Find(Finding{Kind: "property", Group: "PROJECT", Check: "batch-ok-but-row-fails", Case: fmt.Sprintf("%s bs=%d cache=%s", cs, bs, cbit), Line: "MODES " + hxs(q),
+							Engine: "batch: " + projShow(b.rows, b.class) + "  row: " + projShow(rw.rows, rw.class), Model: "row iteration completes too, with the same rows",
+							Seed: e.Seed, Index: ix, Properties: []string{"C03"}, Class: cls})
+					} else if x, y := projShow(b.rows, b.class), projShow(rw.rows, rw.class); x != y {
+						col.Find(Finding{Kind: "property", Group: "PROJECT", Check: "row-vs-batch-rows", Case: fmt.Sprintf("%s bs=%d cache=%s", cs, bs, cbit), Line: "MODES " + hxs(q),
+							Engine: "batch: " + x, Model: "row: " + y, Seed: e.Seed, Index: ix, Properties: []string{"C03"}})
 					}
 				}
 				if ix%499 == 7 && phase == 0 {
